@@ -1,6 +1,7 @@
 package checks
 
 import (
+	"bytes"
 	"fmt"
 	"strings"
 
@@ -23,51 +24,60 @@ func init() { register("C05", runC05, replayC05) }
 // and the bytes the parser consumed. aux: for OfflineSignature the destination type; idKey the
 // identity key handed to OfflineSignature.VerifySignature.
 func c05LibVerify(kind string, x []byte, aux int, idKey []byte) (parsed, verified bool, consumed []byte) {
+	parsed, consumed, verify := c05Parse(kind, x, aux, idKey)
+	if !parsed {
+		return false, false, nil
+	}
+	return true, verify(), consumed
+}
+
+// c05Parse parses x and returns the bytes consumed and a closure that asks the library to verify
+// the parsed value (callable more than once: the history clauses call it again after the caller's
+// buffer has been reused).
+func c05Parse(kind string, x []byte, aux int, idKey []byte) (parsed bool, consumed []byte, verify func() bool) {
 	switch kind {
 	case "RouterInfo":
 		v, rem, err := router_info.ReadRouterInfo(x)
 		if err != nil || len(rem) > len(x) {
-			return false, false, nil
+			return false, nil, nil
 		}
-		ok, err := v.VerifySignature()
-		return true, ok && err == nil, x[:len(x)-len(rem)]
+		return true, x[:len(x)-len(rem)], func() bool { ok, err := v.VerifySignature(); return ok && err == nil }
 	case "LeaseSet":
 		v, err := lease_set.ReadLeaseSet(x)
 		if err != nil {
-			return false, false, nil
+			return false, nil, nil
 		}
 		c := x
 		if _, n, e := refmodel.DecodeLeaseSet(x); e == nil {
 			c = x[:n]
 		}
-		return true, v.Verify() == nil, c
+		return true, c, func() bool { return v.Verify() == nil }
 	case "LeaseSet2":
 		v, rem, err := lease_set2.ReadLeaseSet2(x)
 		if err != nil || len(rem) > len(x) {
-			return false, false, nil
+			return false, nil, nil
 		}
-		return true, v.Verify() == nil, x[:len(x)-len(rem)]
+		return true, x[:len(x)-len(rem)], func() bool { return v.Verify() == nil }
 	case "MetaLeaseSet":
 		v, rem, err := meta_leaseset.ReadMetaLeaseSet(x)
 		if err != nil || len(rem) > len(x) {
-			return false, false, nil
+			return false, nil, nil
 		}
-		return true, v.Verify() == nil, x[:len(x)-len(rem)]
+		return true, x[:len(x)-len(rem)], func() bool { return v.Verify() == nil }
 	case "EncryptedLeaseSet":
 		v, rem, err := encrypted_leaseset.ReadEncryptedLeaseSet(x)
 		if err != nil || len(rem) > len(x) {
-			return false, false, nil
+			return false, nil, nil
 		}
-		return true, v.Verify() == nil, x[:len(x)-len(rem)]
+		return true, x[:len(x)-len(rem)], func() bool { return v.Verify() == nil }
 	case "OfflineSignature":
 		v, rem, err := offline_signature.ReadOfflineSignature(x, uint16(aux))
 		if err != nil || len(rem) > len(x) {
-			return false, false, nil
+			return false, nil, nil
 		}
-		ok, err := v.VerifySignature(idKey)
-		return true, ok && err == nil, x[:len(x)-len(rem)]
+		return true, x[:len(x)-len(rem)], func() bool { ok, err := v.VerifySignature(idKey); return ok && err == nil }
 	}
-	return false, false, nil
+	return false, nil, nil
 }
 
 // c05RefVerify is the independent oracle on the consumed bytes.
@@ -124,6 +134,54 @@ func c05Try(r *core.Run, worker int, kind string, x []byte, aux int, idKey []byt
 		r.Distinct([]byte(kind), []byte(class), []byte(detail), []byte(base))
 	}
 	return true
+}
+
+// c05TryReuse: history clause "over exactly the bytes the structure was parsed from". The forged input x
+// (same length as the genuine encoding g it was derived from) is parsed from the caller's buffer; the
+// library rejects it; the caller then REUSES the buffer for the genuine message; verification of the value
+// parsed from the forged bytes must still fail (a value that keeps a window into the caller's buffer would
+// now be judged on the genuine bytes).
+func c05TryReuse(r *core.Run, worker int, kind string, x, g []byte, aux int, idKey []byte, class, detail, base string) {
+	if len(x) != len(g) || bytes.Equal(x, g) {
+		return
+	}
+	// Scope: C05 itself quantifies over inputs; buffer-reuse histories are property C08's, whose list of
+	// structures that must not share memory with the caller's buffer deliberately leaves out RouterInfo,
+	// RouterAddress and every options / properties mapping (they do alias today). The clause is therefore
+	// evaluated only where C08 promises independence: LeaseSet, EncryptedLeaseSet, OfflineSignature, and the
+	// non-mapping parts of LeaseSet2 / MetaLeaseSet.
+	switch kind {
+	case "RouterInfo":
+		return
+	case "LeaseSet2", "MetaLeaseSet":
+		if strings.Contains(class, "options") || strings.Contains(class, "props") || strings.Contains(class, "pair") {
+			return
+		}
+	}
+	buf := append([]byte(nil), x...)
+	var parsed, v1, v2 bool
+	var consumedLen int
+	pan, _ := core.Guard(func() {
+		var consumed []byte
+		var verify func() bool
+		parsed, consumed, verify = c05Parse(kind, buf, aux, idKey)
+		if !parsed {
+			return
+		}
+		consumedLen = len(consumed)
+		v1 = verify()
+		copy(buf, g)
+		v2 = verify()
+	})
+	r.Evaluations.Add(1)
+	if pan || !parsed || v1 || !v2 {
+		return // v1 true is judged by c05Try; here only the verdict AFTER the buffer was reused
+	}
+	if ok, why := c05RefVerify(kind, x[:consumedLen], aux, idKey); !ok {
+		r.Violate("C05|"+kind+"|verifies-unauthentic-after-the-caller-reused-its-buffer|"+class,
+			fmt.Sprintf("%s: a value parsed from forged bytes (rejected at first) verifies once the caller's buffer holds the genuine message: %s (derivation %s %s; base %s)", kind, why, class, detail, base),
+			core.Case{Kind: "verify-reuse", Args: map[string]string{"kind": kind, "input": core.HexFull(x), "genuine": core.HexFull(g), "aux": fmt.Sprint(aux), "idkey": core.HexFull(idKey), "class": class, "detail": detail, "base": base}})
+	}
 }
 
 // c05SchemeMixups: a properly AUTHORISED transient key of one Ed25519-family scheme whose outer
@@ -406,7 +464,9 @@ func c05One(r *core.Run, worker int, s gen.Signed, aux int, desc string, devs in
 		r.AddNote("positive_controls_not_verified_by_library_"+kind, 1)
 	}
 	try := func(class, detail string, b []byte) {
-		c05Try(r, worker, kind, b, aux, idKey, class, detail, desc, false)
+		if !c05Try(r, worker, kind, b, aux, idKey, class, detail, desc, false) && libOK {
+			c05TryReuse(r, worker, kind, b, s.Bytes, aux, idKey, class, detail, desc)
+		}
 	}
 	c05Forgeries(s, try)
 	if devs > 1 {
@@ -466,5 +526,9 @@ func runC05(r *core.Run) {
 func replayC05(r *core.Run, c core.Case) {
 	var aux int
 	fmt.Sscan(c.Args["aux"], &aux)
+	if c.Kind == "verify-reuse" {
+		c05TryReuse(r, 0, c.Args["kind"], core.UnHex(c.Args["input"]), core.UnHex(c.Args["genuine"]), aux, core.UnHex(c.Args["idkey"]), c.Args["class"], c.Args["detail"], c.Args["base"])
+		return
+	}
 	c05Try(r, 0, c.Args["kind"], core.UnHex(c.Args["input"]), aux, core.UnHex(c.Args["idkey"]), c.Args["class"], c.Args["detail"], c.Args["base"], false)
 }
